@@ -8,14 +8,59 @@ THEOREMS = {"Properties.C01": ["C01_kill", "C01_kill_op", "C01_restart_idem", "C
                                "C01_torn_write_reads_prefix", "C01_batch_delete_partial_refuted",
                                "C01_power_always", "C01_power_model_simulates",
                                "C01_power_batch_unsynced_refuted",
-                               "C01_power_always_partial", "C01_nonvacuous"]}
+                               "C01_power_always_partial", "C01_nonvacuous"],
+            "Properties.C01periodic": ["C01_periodic_partial", "C01_periodic_zero_every_write",
+                                       "C01_periodic_idle_tail_refuted", "C01_periodic_nonvacuous"]}
 PINS = {"Properties.C01": {
     "_preamble": "From Coq Require Import List NArith ZArith Bool. From Kyro Require Import Model.Amap Model.Backend Model.Crash Proofs.BackendProofs. Open Scope N_scope.",
     "C01_kill": "forall (c : cfg) (ops : list op) (n : nat) (torn : bool), wf_cfg c = true -> norm_ok c -> known_c01 c ops n = false -> exists r, start c (cp_dir (crash_hist c ops n torn)) = SOk r /\\ (st_store r = cp_acked (crash_hist c ops n torn) \\/ st_store r = cp_inflight (crash_hist c ops n torn))",
     "C01_kill_op": "forall (c : cfg) (s : state) (o : op) s' out effs (k : nat) (torn : bool), wf_cfg c = true -> norm_ok c -> Inv c s -> step c s o = (s', out, effs) -> (k <= length effs)%nat -> known_op s o k = false -> exists r, start c (crash_kill (st_disk s) effs k torn) = SOk r /\\ (st_store r = st_store s \\/ st_store r = st_store s')",
     "C01_power_always": "forall (c : cfg) (ops : list op) (n : nat) (l : loss), wf_cfg c = true -> norm_ok c -> c_fsync c = FsAlways -> known_power c ops n = false -> exists r, start c (crash_power c ops n l) = SOk r /\\ (st_store r = cp_acked (crash_hist c ops n false) \\/ st_store r = cp_inflight (crash_hist c ops n false))",
     "C01_restart_idem": "forall (c : cfg) (ops : list op) (k : nat) (torn : bool) s' effs, wf_cfg c = true -> norm_ok c -> recover_full c Strict (st_disk (run c ops)) = Ok (s', effs) -> (k <= length effs)%nat -> exists r, start c (crash_kill (st_disk (run c ops)) effs k torn) = SOk r /\\ st_store r = st_store (run c ops) /\\ st_store s' = st_store (run c ops)",
+},
+    "Properties.C01periodic": {
+    "_preamble": "From Coq Require Import List NArith. From Kyro Require Import Model.Periodic Proofs.PeriodicProofs. Import ListNotations. Open Scope N_scope.",
+    "C01_periodic_partial": "forall iv t0 pre d mid dj post, p_now (prun iv t0 (pre ++ [d])) + iv <= p_now (prun iv t0 (pre ++ [d] ++ mid ++ [dj])) -> (length pre < length (p_durable (prun iv t0 (pre ++ [d] ++ mid ++ [dj] ++ post))))%nat",
+    "C01_periodic_idle_tail_refuted": "~ periodic_clause 50 0 [10; 1] 200",
 }}
+
+# Source anchors of Model/Periodic.v: the Periodic arm of WalWriter::perform_fsync (fragments in this order)
+PERIODIC_ANCHORS = [
+    ("engine/src/persistence.rs", "fn perform_fsync(&mut self)",
+     ["FsyncPolicy::Periodic(interval_ms) => {", "if interval_ms == 0", "|| self.last_fsync.elapsed() >= Duration::from_millis(interval_ms)",
+      "self.file.sync_data()?;", "self.last_fsync = Instant::now();", "FsyncPolicy::Never => {"]),
+    ("engine/src/persistence.rs", "fn append_internal(&mut self, entry: &WalEntry)", ["self.write_entry(entry)?;", "self.perform_fsync()"]),
+]
+
+
+def periodic_anchor_misses():
+    """Model/Periodic.v's `due` / `pstep` read off the source text; also: `last_fsync` is assigned nowhere
+    else than in perform_fsync (and the constructors)."""
+    misses = []
+    try:
+        src = open("/repo/engine/src/persistence.rs").read()
+    except OSError:
+        return [{"file": "engine/src/persistence.rs", "missing": "file"}]
+    for rel, fn, frags in PERIODIC_ANCHORS:
+        i = src.find(fn)
+        if i < 0:
+            misses.append({"file": rel, "fn": fn, "missing": "function"})
+            continue
+        j = src.find("\n    }\n", i)
+        body = src[i:j if j > 0 else len(src)]
+        pos = 0
+        for f in frags:
+            k = body.find(f, pos)
+            if k < 0:
+                misses.append({"file": rel, "fn": fn, "missing": f})
+                break
+            pos = k + len(f)
+    import re
+    assigns = len(re.findall(r"self\.last_fsync\s*=[^=]", src))
+    if assigns != 1:
+        misses.append({"file": "engine/src/persistence.rs", "missing": "exactly one assignment to self.last_fsync (found %d)" % assigns})
+    return misses
+
 
 RULE = ("seeded histories (3..12 ops: insert/overwrite, delete, batch_delete, update_metadata, create_snapshot, restart; "
         "grid dim{1,2,3,8} x metric x capacity{3,4,64} x snapshot_interval{0,1,2,3,5,1000} x max_wal{1,200,400,1MiB}; "
@@ -58,11 +103,13 @@ def run(ctx):
         "ASSUMPTION norm_ok (see C02) and the premise known_c01 = false: the crash is not strictly inside the run of per-id frames of a batch_delete of >= 2 live ids (recorded finding C01-batch-delete-partial; model witness C01_batch_delete_partial_refuted, reproduced by the driver on every run)",
         "process-kill model of the file system: every completed libc call persists, the last write may be cut at any byte (a cut WAL frame is tail Torn - byte-level justification WalBytesProofs.torn_prefix, re-exported as C01_torn_write_reads_prefix; a cut temp file is unparsable); rename is atomic; this is the standard crash model, not ext4",
         "power-loss model of the file system (Model/Crash.v, proved for EVERY loss choice in C01_power_always): un-synced content versions of a file are lost as a suffix, un-dirsynced directory operations are lost as a suffix, the two independently; file data and directory entries are the only state (no metadata-only effects such as file length without data); fsync/fdatasync make the whole file content durable, a directory fsync makes all earlier directory operations durable; under power loss the excluded batch-delete class extends to the instant before the batch's fsync completes (known_power; witness C01_power_batch_unsynced_refuted); the model's own oracle is additionally evaluated on a subset of the seeded histories and the driver enumerates the power-loss views of the REAL traces",
-        "periodic-fsync clause: decided only by the driver's directed scenario (Periodic(50 ms), two acknowledged inserts, 200 ms idle, power loss); timing is not modelled in Coq",
+        "periodic-fsync clause: Model/Periodic.v (hand-written timed core of WalWriter::perform_fsync: an append syncs iff interval == 0 or last_fsync.elapsed() >= interval, then last_fsync := now; nothing else syncs) is tied to the code by source anchors on perform_fsync / append_internal (fragments in order, a single assignment to last_fsync) and by the driver's directed scenario (Periodic(50 ms), two acknowledged inserts, 200 ms idle, power loss), which replays the model's witness C01_periodic_idle_tail_refuted on the real engine; the model takes the sync instant and the acknowledgement instant of an append to be the same millisecond; snapshots/rotation under Periodic are not in this small model (they only add syncs)",
         "LD_PRELOAD shim shims/fsshim.c (records open(O_CREAT)/write/fsync/fdatasync/ftruncate/rename/unlink with data), kvh-pers vfs (trace -> directory states), harness/p/c01/src/abs.rs (trace -> model effects: decoding with the engine's own WalEntry/Manifest/Snapshot types, file renaming by the model's fresh-id rule, collapsing of consecutive temp-file writes)",
         "start-up decision replicated from kyrodb_server main: recover (strict) when MANIFEST exists, else with_persistence (which refuses a directory with snapshots / non-empty WALs)",
     ]
-    proofs_ok = ctx.proof_phase(["Properties/C01.vo"], THEOREMS, pins=PINS)
+    proofs_ok = ctx.proof_phase(["Properties/C01.vo", "Properties/C01periodic.vo"], THEOREMS, pins=PINS)
+    p_misses = periodic_anchor_misses()
+    ctx.cov["periodic_source_anchors_missing"] = p_misses
     ok, log = vlib.cargo_build(["c01"])
     ctx.log("cargo.log", log)
     if not ok:
@@ -114,6 +161,9 @@ def run(ctx):
         broken.append({"kind": "cases-evaluation-error", "detail": coq_err[:2]})
     if summ.get("norm_idem_failures"):
         broken.append({"kind": "assumption-norm_ok-measured-false", "detail": summ["norm_idem_failures"][:3]})
+    if p_misses:
+        broken.append({"kind": "source-anchors", "misses": p_misses,
+                       "what": "the sync rule Model/Periodic.v encodes (C01_periodic_partial: an append at least one interval after an entry makes it durable; interval 0 syncs every write) is no longer the one in WalWriter::perform_fsync"})
     if bad:
         hs = json.load(open(os.path.join(out, "histories.json")))
         first = disagreements[0]
